@@ -210,3 +210,109 @@ func SimpleName(fn *ssa.Function) string {
 	}
 	return fn.Name()
 }
+
+// ---- renamed unexported package-level variables and constants -------------------------------
+
+// RecordedGlobals: "rel|name" -> type (qualified) of every package-level variable and constant
+// known when the specifications were written.  A recorded one that is missing is matched with
+// the unique unexported new one of the same package and type (see resolveRenames).
+var RecordedGlobals map[string][]string
+
+var renamedObjs sync.Map // types.Object -> recorded simple name
+
+func globalKey(o types.Object) string {
+	if o.Pkg() == nil || !strings.HasPrefix(o.Pkg().Path(), Module) {
+		return ""
+	}
+	return Rel(o.Pkg()) + "|" + o.Name()
+}
+
+// DeclaredGlobals lists package-level variables and constants with their types (maintenance).
+func DeclaredGlobals(tp *types.Package) map[string]string {
+	out := map[string]string{}
+	sc := tp.Scope()
+	for _, n := range sc.Names() {
+		switch o := sc.Lookup(n).(type) {
+		case *types.Var, *types.Const:
+			out[globalKey(o)] = types.TypeString(o.Type(), func(p *types.Package) string { return p.Path() })
+		}
+	}
+	return out
+}
+
+func (p *Program) resolveGlobalRenames() {
+	p.byRecordedGlobal = map[string]types.Object{}
+	if len(RecordedGlobals) == 0 {
+		return
+	}
+	q := func(tp *types.Package) string { return tp.Path() }
+	for _, pk := range p.Pkgs {
+		rel := Rel(pk.Types)
+		sc := pk.Types.Scope()
+		present := map[string]bool{}
+		var fresh []types.Object
+		for _, n := range sc.Names() {
+			o := sc.Lookup(n)
+			switch o.(type) {
+			case *types.Var, *types.Const:
+			default:
+				continue
+			}
+			k := globalKey(o)
+			if _, ok := RecordedGlobals[k]; ok {
+				present[k] = true
+			} else if !o.Exported() {
+				fresh = append(fresh, o)
+			}
+		}
+		var missing []string
+		for k := range RecordedGlobals {
+			if strings.HasPrefix(k, rel+"|") && !present[k] {
+				missing = append(missing, k)
+			}
+		}
+		sort.Strings(missing)
+		used := map[types.Object]bool{}
+		for _, k := range missing {
+			var cands []types.Object
+			for _, o := range fresh {
+				if !used[o] && hasString(RecordedGlobals[k], types.TypeString(o.Type(), q)) {
+					cands = append(cands, o)
+				}
+			}
+			// several missing names of one type cannot be told apart: leave them unresolved
+			same := 0
+			for _, k2 := range missing {
+				if strings.Join(RecordedGlobals[k2], "|") == strings.Join(RecordedGlobals[k], "|") {
+					same++
+				}
+			}
+			if len(cands) == 1 && same == 1 {
+				used[cands[0]] = true
+				name := k[strings.IndexByte(k, '|')+1:]
+				renamedObjs.Store(cands[0], name)
+				p.byRecordedGlobal[k] = cands[0]
+			}
+		}
+	}
+}
+
+// ObjSimpleName is o.Name(), or the recorded name of a renamed unexported package-level object.
+func ObjSimpleName(o types.Object) string {
+	if o == nil {
+		return ""
+	}
+	if v, ok := renamedObjs.Load(o); ok {
+		return v.(string)
+	}
+	return o.Name()
+}
+
+func hasString(l []string, s string) bool {
+	for _, x := range l {
+		if x == s {
+			return true
+		}
+	}
+	return false
+}
